@@ -60,7 +60,7 @@ ENGINES.append({"name": "func", "path": "lib/eng_func.py", "serves_properties": 
                 "kind_free_text": "TLA+ transcriptions of self-contained algorithms (FooterScan, QueryLang, Snippet, Adaptive) model-checked against the property's own statement; abstract cases executed on the real functions and judged by TLC (Trace_Func)"})
 ENGINES.append({"name": "disk", "path": "lib/eng_disk.py", "serves_properties": ["C02", "C03", "C04", "C20", "C22"],
                 "kind_free_text": "LD_PRELOAD recorder of file mutations; offline reconstruction of every process-crash and sampled power-loss directory; real recovery (open, second open, verify, doctor, read-only) on each; crash events validated by TLC against Mv2Core (TCrash)"})
-ENGINES.append({"name": "query", "path": "lib/eng_query.py", "serves_properties": ["C08", "C09", "C10", "C11", "C12", "C13", "C16", "C28"],
+ENGINES.append({"name": "query", "path": "lib/eng_query.py", "serves_properties": ["C08", "C09", "C10", "C11", "C12", "C13", "C16", "C28", "C40"],
                 "kind_free_text": "seeded corpora and query batteries on the real Memvid in six phases (pre-commit, committed, after deletes/updates, reopened rw/ro, after doctor rebuild); every query call is a trace event validated by TLC against Mv2Core + Mv2Query contracts"})
 NOT_YET = "check not built yet in this revision of the machinery (see DESIGN.md §12 for the build order)"
 NOT_APPLICABLE = {
@@ -107,6 +107,7 @@ CLAIMED = {
     "C13": _query("search_vec with integer query vectors: result length min(k, m), reported squared distances equal the exact ones computed by TLC from the embedding ids, non-decreasing, no duplicates, no omitted active embedded frame strictly closer than the last hit; a query of another dimension must fail with VecDimensionMismatch; identical distance sequences after reopen (rw, ro) and doctor rebuild.", "Brute-force index only (default features); extreme float values are outside what this technique judges."),
     "C16": _query("Paged requests (page sizes 1..25, corpora with 48-90 matches so that the engine's candidate limit matters) are followed to the end: the concatenated pages must equal the one-request sequence (frame, range) and total_hits must be the same on every page.", "The total_hits inconsistency of the pinned tree is recorded as a known finding."),
     "C28": _query("The same battery (same query ids) is issued on the live handle after the commit, after reopen read-write, after reopen read-only and after a doctor rebuild of all indexes: for an unchanged frame table the hit sets (distance sequences for vector search) must be equal; searches issued between put and commit must satisfy the soundness contract on the table including the pending window."),
+    "C40": _query("Corpora are ingested through plain puts + commit, through begin_batch(options: skip_sync, disable_auto_checkpoint, compression level, WAL pre-size)/end_batch + commit, and through several commit_skip_indexes followed by finalize_indexes (with and without a final commit). The bulk calls are actions of Mv2Core with the same effect on the frame table as plain puts; every observation of those memories - frame table, payload ids, embeddings, timeline, vector probes, single-word recall, boolean-query soundness, exact k-NN, live and after reopen, verify - must satisfy the same contracts as for plain ingestion; any failure in a bulk history is attributed to this property."),
     "C05": {
         "engine": "walring",
         "technique": "TLA+ cell-level model (WalRing) exhaustively checked by TLC + refinement to WalAbs; every TLC transition replayed on the real EmbeddedWal; recorded real runs validated against WalAbs by TLC",
